@@ -83,6 +83,11 @@ func genC08Plan(r *sim.Rng, tier string) ChunkPlan {
 	}
 	csids := []int{2 + r.Intn(62), 2 + r.Intn(62), 64 + r.Intn(256), 320 + r.Intn(65280), 3, 4, 63, 64, 319, 320, 65599}
 	nStreams := 1 + r.Intn(4)
+	// the chunk streams of this run: any of the candidates, the boundaries of the three basic-header forms included
+	for i := 0; i < nStreams; i++ {
+		j := i + r.Intn(len(csids)-i)
+		csids[i], csids[j] = csids[j], csids[i]
+	}
 	lastTs := map[int]uint32{}
 	lastSpec := map[int]ChunkMsgSpec{}
 	prevTs2 := map[int]uint32{}
